@@ -35,10 +35,10 @@ SHARDS = {"quick": 2, "thorough": 8}
 NAMES = ["foo", "foo_bar", "Foo.Bar", "foo_bar_baz", "a", "zope.interface", "ruamel.yaml.clib", "A1", "x_1_2", "py3_thing"]
 VERS = ["1.0", "1.0.0", "2024.1.1", "1.0a1", "1.0.post1", "1.0.dev1", "1!2.0", "1.0+local.1", "0.1rc2", "3", "1.0_1",
         "1.0+ubuntu_1"]
-BUILDS = [None, "1", "2abc", "0", "123_x", "7b"]
-PY = ["py3", "py2.py3", "cp38", "cp310", "cp38.cp39", "pp310", "cp36.cp37.cp38", "py39"]
-ABI = ["none", "abi3", "cp38", "cp310", "cp38m", "pypy310_pp73", "cp313t", "abi3.cp38", "none.abi3", "cp39.cp310"]
-PLAT = ["any", "linux_x86_64", "manylinux_2_17_x86_64.manylinux2014_x86_64", "macosx_10_9_x86_64", "win_amd64",
+BUILDS = [None, "1", "2abc", "0", "123_x", "7b", "1%2d2", "3%5fx"]
+PY = ["py3", "py2.py3", "cp38", "cp310", "cp38.cp39", "pp310", "cp36.cp37.cp38", "py39", "CP38", "Py3.cp310"]
+ABI = ["none%2dany", "abi3%2Ecp38", "none", "abi3", "cp38", "cp310", "cp38m", "pypy310_pp73", "cp313t", "abi3.cp38", "none.abi3", "cp39.cp310"]
+PLAT = ["win%5famd64", "any%2Ewhl", "manylinux_2_17_x86_64%2emusllinux_1_1_x86_64", "any", "linux_x86_64", "manylinux_2_17_x86_64.manylinux2014_x86_64", "macosx_10_9_x86_64", "win_amd64",
         "macosx_11_0_arm64.macosx_10_9_universal2", "manylinux1_i686", "musllinux_1_1_aarch64",
         "manylinux_2_5_x86_64.manylinux1_x86_64.manylinux_2_12_x86_64.manylinux2010_x86_64"]
 
@@ -101,6 +101,23 @@ def setup(ctx):
     install(T.EnvSpec, "compatibility", post_compat, mon="compat-spy")
 
 
+def _end_to_end(spec, fn, got_score):
+    """The score must be the one of the tag sets of THIS file name, read by the harness' own split of the name
+    (lower-cased, as packaging reports them)."""
+    from ..monitor import oracle as _oracle
+
+    stem = fn[:-4] if fn.endswith(".whl") else None
+    if stem is None or stem.count("-") not in (4, 5):
+        return
+    bump("wheel_compatibility-end-to-end")
+    own = [part.lower().split(".") for part in stem.split("-")[-3:]]
+    with _oracle():
+        want_score = spec.compatibility(*own)
+    if got_score != want_score:
+        violation(PROP, "EnvSpec.wheel_compatibility", "the score is not that of the tag sets in the file name",
+                  {"filename": fn, "got": got_score, "expected": want_score, "tags": own, "group": "end-to-end"})
+
+
 class _StrName(str):
     """A plain str subclass."""
 
@@ -143,10 +160,11 @@ def _names(ctx, n):
             if via:
                 ctx.c18["via"] = True
                 try:
-                    spec.wheel_compatibility(fn)
+                    got_score = spec.wheel_compatibility(fn)
                 finally:
                     ctx.c18["via"] = False
                     ctx.c18["expect_lists"] = None
+                _end_to_end(spec, fn, got_score)
             else:
                 arg = fn
                 k = rnd.random()
@@ -345,7 +363,8 @@ def replay(ctx, case):
     if case["kind"] == "wheel":
         ctx.c18["via"] = True
         try:
-            EnvSpec.from_spec(">=3.8", "linux", "cpython").wheel_compatibility(case["filename"])
+            spec = EnvSpec.from_spec(">=3.8", "linux", "cpython")
+            _end_to_end(spec, case["filename"], spec.wheel_compatibility(case["filename"]))
         except T.InvalidWheelFilename:
             pass
         except Exception:  # noqa: BLE001
